@@ -17,8 +17,56 @@ def sh(cmd, **kw):
     return subprocess.run(cmd, shell=True, text=True, stdout=subprocess.PIPE, stderr=subprocess.STDOUT, **kw)
 
 
+def one(sid, tier, inplace):
+    rows = []
+    d = os.path.join(SEEDED, sid)
+    meta = json.load(open(os.path.join(d, "meta.json")))
+    props = meta.get("check_with") or [meta["property"]]
+    if inplace:
+        tree = "/repo"
+    else:
+        tree = "/tmp/seedwt_%s" % sid
+        sh("git -C /repo worktree remove --force %s" % tree)
+        r = sh("git -C /repo worktree add -q --detach %s HEAD" % tree)
+        if r.returncode:
+            return [(sid, ",".join(props), "ERROR worktree", r.stdout.strip()[:200])]
+    r = sh("git -C %s apply --binary %s" % (tree, os.path.join(d, "patch.diff")))
+    if r.returncode:
+        rows.append((sid, ",".join(props), "PATCH-DOES-NOT-APPLY", r.stdout.strip()[:200])); print(rows[-1])
+    else:
+        for prop in props:
+            t0 = time.time()
+            env = dict(os.environ, VERIF_REPO=tree)
+            c = sh("./check %s %s" % (prop, tier), cwd=V, env=env)
+            vio = [l for l in c.stdout.splitlines() if l.startswith("VIOLATION")]
+            fi = [l.strip() for l in c.stdout.splitlines() if "failing input" in l or "no longer checks" in l]
+            verdict = "CAUGHT" if (c.returncode == 1 and vio) else ("MISSED" if c.returncode == 0 else "ERROR rc=%d" % c.returncode)
+            if vio and "no-failing-input-found" in vio[0]:
+                verdict += " (no-failing-input-found)"
+            rows.append((sid, prop, verdict, "; ".join(fi[:2])[:300] + " [%.0fs]" % (time.time() - t0)))
+            print(rows[-1], flush=True)
+    if inplace:
+        sh("git -C /repo checkout -- .")
+    else:
+        sh("git -C /repo worktree remove --force %s" % tree)
+        sh("rm -rf %s/.work/*-alt-tmp_seedwt_%s %s/.work/*-alt-tmp_seedwt_%s.lock" % (V, sid, V, sid))
+    return rows
+
+
 def main():
     args = [a for a in sys.argv[1:] if not a.startswith("--")]
+    jobs = [int(a.split("=")[1]) for a in sys.argv[1:] if a.startswith("--jobs=")]
+    if jobs and "--inplace" not in sys.argv:
+        from concurrent.futures import ThreadPoolExecutor
+        tier = "thorough" if "--thorough" in sys.argv else "quick"
+        ids = args or sorted(d for d in os.listdir(SEEDED) if os.path.isdir(os.path.join(SEEDED, d)))
+        with ThreadPoolExecutor(jobs[0]) as ex:
+            rows = [r for rs in ex.map(lambda s: one(s, tier, False), ids) for r in rs]
+        with open(os.path.join(SEEDED, "RESULTS.md"), "a") as f:
+            f.write("\n## run %s tier=%s\n\n| seeded change | check | verdict | detail |\n|---|---|---|---|\n" % (time.strftime("%Y-%m-%d %H:%M"), tier))
+            for r in rows:
+                f.write("| %s | %s | %s | %s |\n" % tuple(x.replace("|", "/") for x in r))
+        return 0
     tier = "thorough" if "--thorough" in sys.argv else "quick"
     inplace = "--inplace" in sys.argv
     ids = args or sorted(d for d in os.listdir(SEEDED) if os.path.isdir(os.path.join(SEEDED, d)))
